@@ -172,6 +172,60 @@ class MDict:
         return f"MDict({z3.simplify(self.t)})"
 
 
+class AliasingUnsupported(Exception):
+    pass
+
+
+def _guard(name, base):
+    def method(self, *a, **k):
+        if self._frozen:
+            raise AliasingUnsupported(f"{base.__name__}.{name} after the container was stored by value into a symbolic container")
+        return getattr(base, name)(self, *a, **k)
+    method.__name__ = name
+    method.__qualname__ = f"{base.__name__}.{name}"
+    return method
+
+
+class PDict(dict):
+    """dict created by interpreted code. Stays a concrete Python dict until it is updated with symbolic content;
+    then `.m` holds the MDict that every alias sees (loads are normalised to it by the interpreter).
+    Storing it *into* a symbolic container takes a by-value snapshot; it is frozen afterwards so that a later
+    in-place mutation (which Python would make visible through the alias) is reported as unsupported, not ignored."""
+    m = None
+    _frozen = False
+
+
+for _n in ("__setitem__", "__delitem__", "update", "setdefault", "pop", "popitem", "clear"):
+    setattr(PDict, _n, _guard(_n, dict))
+
+
+class PList(list):
+    m = None
+    _frozen = False
+
+
+for _n in ("__setitem__", "__delitem__", "append", "extend", "insert", "pop", "remove", "clear", "sort", "reverse", "__iadd__"):
+    setattr(PList, _n, _guard(_n, list))
+
+
+def store_lower(v):
+    """lower a value that is being stored into a symbolic container (freezes mutable concrete containers)"""
+    if isinstance(v, (PDict, PList)):
+        v._frozen = True
+        for x in (v.values() if isinstance(v, dict) else v):
+            if isinstance(x, (PDict, PList)):
+                store_lower(x)
+    return lower(v)
+
+
+def norm(v):
+    if isinstance(v, PDict) and v.m is not None:
+        return v.m
+    if isinstance(v, PList) and v.m is not None:
+        return v.m
+    return v
+
+
 def is_symbolic(v):
     return isinstance(v, (SV, MList, MDict))
 
@@ -179,6 +233,8 @@ def is_symbolic(v):
 def deep_symbolic(v, _depth=0):
     """True if v contains symbolic leaves or interpreter objects (cannot be handed to native code)."""
     if isinstance(v, (SV, MList, MDict, Obj)):
+        return True
+    if isinstance(v, (PDict, PList)) and v.m is not None:
         return True
     if _depth > 50:
         return False
@@ -235,6 +291,8 @@ def lower(v, _seen=None):
         if v.sort() == z3.StringSort():
             return VStr(v)
         raise LowerError(f"cannot lower z3 term of sort {v.sort()}")
+    if isinstance(v, (PDict, PList)) and v.m is not None:
+        return v.m.t
     if isinstance(v, list):
         return VList(vlist(lower(x) for x in v))
     if isinstance(v, tuple):
@@ -336,13 +394,76 @@ d_set = _recfun("d_set", [VL, Val, Val, VL],
 LEMMAS = []
 
 
-def dget(l, k, dflt):
-    """dict.get(k, dflt) / d[k] on an association list"""
-    return z3.If(d_has(l, k), d_get(l, k), dflt)
+d_update = _recfun("d_update", [VL, VL, VL],
+                   lambda f, a, b: z3.If(is_VNil(b), a, f(d_set(a, pkey(hd(b)), pval(hd(b))), tl(b))))
+
+
+def _keys_cmp(k1, k2):
+    """True / False when two key terms are literally equal / literally different constants, else None"""
+    k1, k2 = z3.simplify(k1), z3.simplify(k2)
+    if k1.eq(k2):
+        return True
+    if z3.is_app(k1) and z3.is_app(k2) and k1.decl().name() == "VStr" and k2.decl().name() == "VStr" \
+            and z3.is_string_value(k1.arg(0)) and z3.is_string_value(k2.arg(0)):
+        return k1.arg(0).as_string() == k2.arg(0).as_string()
+    return None
 
 
 def dhas(l, k):
+    """key membership with the (inductively valid) rewrite rules for d_set / d_update / concrete cells applied:
+         has(set(l,k0,v),k) = (k = k0) or has(l,k);   has(update(a,b),k) = has(a,k) or has(b,k)"""
+    l = z3.simplify(l)
+    n = l.decl().name() if z3.is_app(l) else ""
+    if n == "VNil":
+        return z3.BoolVal(False)
+    if n == "d_set":
+        c = _keys_cmp(l.arg(1), k)
+        if c is True:
+            return z3.BoolVal(True)
+        rest = dhas(l.arg(0), k)
+        return rest if c is False else z3.Or(l.arg(1) == k, rest)
+    if n == "d_update":
+        return z3.Or(dhas(l.arg(0), k), dhas(l.arg(1), k))
+    if n == "VCons":
+        c = _keys_cmp(pkey(l.arg(0)), k)
+        if c is True:
+            return z3.BoolVal(True)
+        rest = dhas(l.arg(1), k)
+        return rest if c is False else z3.Or(pkey(l.arg(0)) == k, rest)
     return d_has(l, k)
+
+
+def dlookup(l, k):
+    """value bound to k (ABSENT if none), same rewrite rules; update(a,b): b wins (b has distinct keys)"""
+    l = z3.simplify(l)
+    n = l.decl().name() if z3.is_app(l) else ""
+    if n == "VNil":
+        return ABSENT
+    if n == "d_set":
+        c = _keys_cmp(l.arg(1), k)
+        if c is True:
+            return l.arg(2)
+        rest = dlookup(l.arg(0), k)
+        return rest if c is False else z3.If(l.arg(1) == k, l.arg(2), rest)
+    if n == "d_update":
+        return z3.If(dhas(l.arg(1), k), dlookup(l.arg(1), k), dlookup(l.arg(0), k))
+    if n == "VCons":
+        c = _keys_cmp(pkey(l.arg(0)), k)
+        if c is True:
+            return pval(l.arg(0))
+        rest = dlookup(l.arg(1), k)
+        return rest if c is False else z3.If(pkey(l.arg(0)) == k, pval(l.arg(0)), rest)
+    return d_get(l, k)
+
+
+def dget(l, k, dflt):
+    """dict.get(k, dflt) / d[k] on an association list"""
+    h = z3.simplify(dhas(l, k))
+    if z3.is_true(h):
+        return dlookup(l, k)
+    if z3.is_false(h):
+        return dflt
+    return z3.If(h, dlookup(l, k), dflt)
 
 
 def nth(l, i: int):
